@@ -290,8 +290,8 @@ func onceDo(t *Thread, a []Value) Value {
 	}
 	o.running = true
 	defer func() {
-		t.tick()
 		o.vc = t.vc.clone()
+		t.tick()
 		o.done = true
 	}()
 	t.callValue(a[1], nil, nil)
@@ -312,8 +312,8 @@ func wgAdd(t *Thread, a []Value) Value {
 		r.wgroups[p] = w
 	}
 	d := int64(r.concretize(a[1].(*Term), "wg delta"))
-	t.tick()
 	w.vc.join(t.vc)
+	t.tick()
 	w.n += d
 	if w.n < 0 {
 		panic(&GoPanic{msg: "panic: sync: negative WaitGroup counter"})
@@ -353,8 +353,8 @@ func (t *Thread) atomicSync(p *Value, write bool) {
 	if r.raceOn {
 		t.logAccessK(p, write, true)
 	}
-	t.tick()
 	v.join(t.vc)
+	t.tick()
 }
 
 func atomicAdd(t *Thread, a []Value) Value {
@@ -526,8 +526,8 @@ func (t *Thread) cancelCtx(c *ctxObj, err Value, vc VC) {
 	if !c.done.closed {
 		c.done.closed = true
 		if vc == nil {
-			t.tick()
 			vc = t.vc.clone()
+			t.tick()
 		}
 		c.done.closeVC = vc
 	}
@@ -1100,6 +1100,15 @@ var verifAPI = map[string]intrinsic{
 		return t.run.e.tt.Const(64, uint64(n))
 	},
 	"verifEvent":    func(t *Thread, a []Value) Value { t.run.event(mustStr(a[0].(Str))); return nil },
+	"verifIOWrite": func(t *Thread, a []Value) Value {
+		t.run.ioSync.join(t.vc)
+		t.tick()
+		return nil
+	},
+	"verifIORead": func(t *Thread, a []Value) Value {
+		t.vc.join(t.run.ioSync)
+		return nil
+	},
 	"verifLock":     func(t *Thread, a []Value) Value { t.atomicDepth++; return nil },
 	"verifUnlock":   func(t *Thread, a []Value) Value { t.atomicDepth--; return nil },
 	"verifSymbolic": func(t *Thread, a []Value) Value { return t.run.e.tt.Bool(true) },
